@@ -170,20 +170,69 @@ func sameShape(a, b ssa.Value, depth int) bool {
 	return false
 }
 
-// expandFacts adds, for every fact whose condition is the result of a
-// single-return module helper, the fact about the expression that helper
-// returns (negations normalised).
+// expandFacts adds, for every fact whose condition is a boolean result of a
+// direct call to a module helper, what that outcome implies inside the helper:
+// the result can only have come from a return statement whose value in that
+// position is not the opposite constant, so whatever holds at all of those
+// returns (their dominating facts, and the returned expression itself when it
+// is not a constant) holds too. Facts are about the helper's own values.
 func expandFacts(fs []Fact) []Fact {
 	out := fs
 	for _, f := range fs {
-		if _, ok := f.Cond.(*ssa.Call); !ok {
-			continue
-		}
-		if hr := helperResult(f.Cond); hr != f.Cond {
-			out = append(out, normFact(Fact{Cond: hr, Val: f.Val, If: f.If}))
-		}
+		out = append(out, impliedByResult(f)...)
 	}
 	return out
+}
+
+func impliedByResult(f Fact) []Fact {
+	var call *ssa.Call
+	idx := 0
+	switch x := f.Cond.(type) {
+	case *ssa.Call:
+		call = x
+	case *ssa.Extract:
+		c, ok := x.Tuple.(*ssa.Call)
+		if !ok {
+			return nil
+		}
+		call, idx = c, x.Index
+	default:
+		return nil
+	}
+	if !isBoolT(f.Cond.Type()) {
+		return nil
+	}
+	callee := call.Common().StaticCallee()
+	if callee == nil || callee.Blocks == nil || !isModFunc(callee) {
+		return nil
+	}
+	var acc []Fact
+	n := 0
+	for _, b := range callee.Blocks {
+		ret, ok := lastInstr(b).(*ssa.Return)
+		if !ok {
+			continue
+		}
+		rr := retResults(ret)
+		if idx >= len(rr) {
+			return nil
+		}
+		here := append([]Fact{}, FactsAtBlock(b)...)
+		if k, isK := rr[idx].(*ssa.Const); isK && k.Value != nil {
+			if constant.BoolVal(k.Value) != f.Val {
+				continue // this return cannot have produced the observed result
+			}
+		} else {
+			here = append(here, normFact(Fact{Cond: rr[idx], Val: f.Val, If: f.If}))
+		}
+		if n == 0 {
+			acc = here
+		} else {
+			acc = intersectFacts(acc, here)
+		}
+		n++
+	}
+	return acc
 }
 
 func lastInstr(b *ssa.BasicBlock) ssa.Instruction {
